@@ -169,7 +169,7 @@ fn mutate(a: &ANode, rng: &mut Rng) -> Option<(ANode, bool, &'static str)> {
             n_elems += 1
         }
     });
-    let kind = rng.below(17);
+    let kind = rng.below(18);
     let target = rng.below(n_elems.max(1));
     let mut seen = 0;
     let mut done: Option<(bool, &'static str)> = None;
@@ -290,6 +290,13 @@ fn mutate(a: &ANode, rng: &mut Rng) -> Option<(ANode, bool, &'static str)> {
                     let i = r1 % n.children.len();
                     n.children.remove(i);
                     done = Some((true, "missing-child"));
+                }
+            }
+            16 => {
+                // a comment in another letter case: comments are compared exactly, whatever the text comparison is
+                if let Some(c) = n.children.iter_mut().find(|c| c.kind == AKind::Comment && c.text.to_ascii_uppercase() != c.text) {
+                    c.text = c.text.to_ascii_uppercase();
+                    done = Some((true, "comment-case"));
                 }
             }
             15 => {
